@@ -203,6 +203,11 @@ def _status(ck: Checker) -> None:
             tab0 = norm(a[0].elt.value) if isinstance(a[0].elt, ast.Subscript) else None
             tab1 = norm(a[1].elt.value) if isinstance(a[1].elt, ast.Subscript) else None
             ex = norm(it0)
+            if isinstance(it1, ast.Name):
+                # `missing = remaining - exists` hoisted into a local just before the return
+                ds_ = [d_ for d_ in scope_of(fn).get(it1.id) if d_.kind in ("assign", "annassign")]
+                if len(ds_) == 1 and ds_[0].value is not None:
+                    it1 = ds_[0].value
             ok1 = (isinstance(it1, ast.BinOp) and isinstance(it1.op, ast.Sub) and norm(it1.right) == ex) or (
                 isinstance(it1, ast.Call) and is_method_call(it1, "difference") and norm(it1.args[0]) == ex)
             ck.require(ok1 and tab0 == tab1 and tab0 is not None and not a[0].generators[0].ifs and not a[1].generators[0].ifs, "C12.status", fn, r,
